@@ -72,7 +72,7 @@ static void ex_case(uint64_t idx, void *vctx)
     if (c->mode != RC_MASK_NONE) {
         if (c->mask_a8) msk = pixman_image_create_bits(PIXMAN_a8, (int)n, 1, (uint32_t *)m8, CHUNK);
         else msk = pixman_image_create_bits(PIXMAN_a8r8g8b8, (int)n, 1, mb, CHUNK * 4);
-        if (c->mode == RC_MASK_CA) pixman_image_set_component_alpha(msk, 1);
+        if (c->mode == RC_MASK_CA) pixman_image_set_component_alpha(msk, ph_truthy(idx));
     }
     pixman_image_composite32(c->op, src, msk, dst, 0, 0, 0, 0, 0, 0, (int)n, 1);
     vf_count_libcalls(1);
@@ -267,7 +267,7 @@ static void fmt_case(uint64_t idx, void *vctx)
     pixman_image_t *dst = pixman_image_create_bits(c->df.code, (int)n, 1, dbuf, sizeof dbuf - 32);
     pixman_image_t *msk = c->mode ? pixman_image_create_bits(c->mf.code, (int)n, 1, mbuf, sizeof mbuf - 32) : NULL;
     if (!src || !dst || (c->mode && !msk)) { vf_violation("c01-create-failed", "image creation failed for %s/%s/%s", c->sf.name, c->mf.name, c->df.name); return; }
-    if (c->mode == RC_MASK_CA) pixman_image_set_component_alpha(msk, 1);
+    if (c->mode == RC_MASK_CA) pixman_image_set_component_alpha(msk, ph_truthy(idx));
     if (c->pres == 3) pixman_image_set_repeat(dst, PIXMAN_REPEAT_NORMAL);
     if (c->pres == 4) pixman_image_set_repeat(src, PIXMAN_REPEAT_NORMAL);
     if (c->pres == 1 || c->pres == 2) {
